@@ -73,3 +73,27 @@ def ef3(F, R):
                     R.require(not hit, fn, "load-failed-no-writeback", "write_back reachable after a failed read_mut (would hit expect(\"write_back with no read\") or write a scribbled buffer)", fn.loc(gb))
     if n == 0:
         R.bad(None, "anchor", "no read_mut failure edges found", kind="anchor-missing")
+
+
+@rule("FT6", ["C05"], floor=2,
+      doc="post-commit errors in alloc_cluster: once the new cluster has been marked END_OF_FILE (the allocation is committed), running out of free clusters while recomputing the next-free hint (NotEnoughSpace from find_next_free_cluster) must not make the call fail - the last free cluster of a volume must be usable")
+def ft6(F, R):
+    from .rules_fs import _update_fat_calls
+    fn = F.fn(FATVOL + "::alloc_cluster")
+    eof = [c for c in _update_fat_calls(fn) if c[4] == "EOF"]
+    if not eof:
+        R.bad(fn, "anchor", "no END_OF_FILE mark in alloc_cluster", kind="anchor-missing")
+        return
+    after = fn.reach_after(eof[0][0])
+    ef = EF(F, FS_SCOPE)
+    ef.summ = {}
+    n = 0
+    for b, t in fn.calls():
+        if b in after and call_matches(t, ("FatVolume::find_next_free_cluster",)):
+            n += 1
+            fates = ef.explore(fn, b, t, "NotEnoughSpace", True)
+            bad = sorted(fk for (fk, d) in fates if fk == "propagated")
+            R.require(not bad, fn, "hint-recompute", "after the allocation is committed, NotEnoughSpace from the hint recomputation is returned to the caller (%s): taking the last free cluster fails and leaks it" % bad, fn.loc(b),
+                      okdetail="NotEnoughSpace after commit is absorbed into hint = None (fates %s)" % sorted(fk for fk, d in fates))
+    if n < 2:
+        R.bad(fn, "sites", "expected the two hint-recomputation searches after the commit, found %d" % n, kind="anchor-missing")
